@@ -101,6 +101,25 @@ def run(R, pid):
     ok, log = vlib.coq_make("Names")
     if not ok:
         R.proof_problems.append("coq build of family Names (dependency) failed")
+    if pid == "C12":
+        # GenSigners.v (translated) and SigProofs.v belong to C12 only: they are not in _CoqProject, so that a change of the
+        # signer facts cannot break the build C03 depends on; compiled here when stale, before Props_C12.v.
+        ok, log = vlib.coq_make("Packet")
+        d = os.path.join(vlib.COQ, "Packet")
+        def stale(v):
+            vo = os.path.join(d, v[:-2] + ".vo")
+            if not os.path.exists(vo):
+                return True
+            t = os.path.getmtime(vo)
+            return any(os.path.getmtime(os.path.join(d, f)) > t for f in os.listdir(d) if f.endswith((".v", ".vo")) and f[:-2 if f.endswith(".v") else -3] not in ("Props_C03", "Props_C12", "Extract", "SigProofs") and not (f.endswith(".vo") and f[:-3] == v[:-2]))
+        with vlib.flock("coq-Packet"):
+            for v in ("GenSigners.v", "SigProofs.v"):
+                if ok and stale(v):
+                    rc, out = vlib.sh(["coqc"] + vlib._coq_flags("Packet") + [os.path.join(d, v)], cwd=d, timeout=900)
+                    if rc != 0:
+                        ok = False
+                        R.proof_problems.append("coq/Packet/%s no longer checks: %s" % (v, " ".join(out.strip().split("\n")[-3:])[:300]))
+                        R.log(out[-1500:])
     R.prove("Packet")
     if not R.quick:
         R.coqchk("Packet", ["Packet.Roundtrip", "Packet.Walker", "Packet.SigProofs"])
@@ -108,7 +127,7 @@ def run(R, pid):
     if b is None:
         return R.finish()
     exe, h = b
-    batches = [(240, R.seed)] if R.quick else [(500, R.seed * 1000 + k) for k in range(12)]
+    batches = [(240, R.seed)] if R.quick else [(500, R.seed * 1000 + k) for k in range(8)]
     corpus = [os.path.join(vlib.VERIF, "corpus", "C03"), os.path.join(vlib.VERIF, "corpus", "C12")]
     lines, rout_all, spec_all, div_all, bad_all, skip_all, compared = [], [], [], [], [], 0, 0
     for bi, (n, seed) in enumerate(batches):
@@ -152,9 +171,9 @@ def run(R, pid):
         if k == "#":
             f = l.split()
             if len(f) == 4 and f[1] == "stat":
-                stats[f[2]] = int(f[3])
+                stats[f[2]] = stats.get(f[2], 0) + int(f[3])
             if len(f) == 4 and f[1] == "tamper":
-                tamper[f[2]] = int(f[3])
+                tamper[f[2]] = tamper.get(f[2], 0) + int(f[3])
             continue
         if k == "RD":
             k = "RD-" + l.split(" ", 4)[2]
